@@ -682,7 +682,7 @@ class Node(object):
         """
         Returns a service time for the given customer class.
         """
-        return self.simulation.service_times[self.id_number][ind.customer_class].sample(t=self.now, ind=ind)
+        return self.simulation.service_times[self.id_number][ind.customer_class]._sample(t=self.now, ind=ind)
 
     def take_servers_off_duty(self, preemption=False):
         """
